@@ -151,7 +151,7 @@ fn feat(st: &mut RunStats, k: &str) {
 
 /// Judge one transition. Returns the failures found (empty = fine).
 #[allow(clippy::too_many_arguments)]
-fn judge<const L: usize>(
+pub fn judge<const L: usize>(
     cfg: &RunCfg,
     step: &Step,
     before: &Snap,
@@ -521,6 +521,9 @@ pub fn run<const L: usize>(cfg: &RunCfg) -> RunStats {
         let mut st = RunStats::default();
         let spill_at = if split > 0 { Some(split) } else { None };
         expand::<L>(&sh, threads, &mut st, &root, cfg.depth, spill_at, &mut jobs);
+        // this thread executes nothing from here on: clear its slot so the watchdog does not
+        // mistake the idle coordinator for a hung execution
+        *sh.slots[threads].lock().unwrap() = None;
         total.merge(st);
     }
     let jobs = Mutex::new(jobs);
@@ -593,4 +596,18 @@ pub fn determinism_gate<const L: usize>(p: &Profile, steps: &[Step]) -> Result<(
         return Err(format!("replaying the same history twice differs: {}", a.describe_diff(&b)));
     }
     Ok(())
+}
+
+/// Replay a history on a fresh real book while maintaining the harness's bookkeeping.
+pub fn replay_tracked<const L: usize>(p: &Profile, steps: &[Step]) -> (OrderBook<L>, Track, Snap) {
+    let mut b = OrderBook::<L>::new(p.start_time, p.tick, p.start_trading);
+    let mut track = Track::new(p.start_trading);
+    let mut snap = Snap::take(&b);
+    for s in steps {
+        apply_real(&mut b, s);
+        let after = Snap::take(&b);
+        track.note(s, &snap, &after);
+        snap = after;
+    }
+    (b, track, snap)
 }
